@@ -35,6 +35,7 @@ type Solver struct {
 	log      *os.File
 	timeout  int // ms per query
 	pendingPop bool
+	curTimeout int
 
 	// statistics (accumulated over the life of the worker)
 	NSat, NUnsat, NUnknown int
@@ -105,10 +106,22 @@ func (s *Solver) Reset() {
 	s.ufDecl = map[string]bool{}
 	s.send("(reset)")
 	s.send("(set-option :print-success false)")
+	s.curTimeout = s.timeout
 	if s.isZ3() {
 		s.send(fmt.Sprintf("(set-option :timeout %d)", s.timeout))
 	} else {
 		s.send("(set-logic ALL)")
+	}
+}
+
+// SetTimeout changes the per-query timeout (ms).
+func (s *Solver) SetTimeout(ms int) {
+	if ms == s.curTimeout || ms <= 0 {
+		return
+	}
+	s.curTimeout = ms
+	if s.isZ3() {
+		s.send(fmt.Sprintf("(set-option :timeout %d)", ms))
 	}
 }
 
